@@ -1,5 +1,7 @@
 package tyx
 
+import "time"
+
 // Named catalogue types (embedding, every tag form, nesting). Values are built by
 // the constructors below from a small integer so that cases stay serialisable.
 
@@ -69,6 +71,13 @@ type (
 type PtrEmbed struct {
 	*Base
 	N int
+}
+
+// Stamped has a field of a type that writes itself (time.Time).
+type Stamped struct {
+	When  time.Time
+	N     int
+	Later *Stamped
 }
 
 // IntKeys holds maps whose keys are not strings: written under the digits of the key, as
